@@ -505,6 +505,66 @@ func checkC12(c *Ctx) {
 		}
 	}
 
+	// ---- C12.11 what the client was told travels to the stations in the field they read: the forwarded wrapper carries the
+	// response itself (RegistrationResponse), whether or not the signed serialisation is attached as well - only nil tests
+	// and error returns may decide whether the field is filled
+	r.Rule("C12.11", "the forwarded wrapper always carries the registration response in the field the stations read", 1)
+	if f := c.fn("C12.11", rp, "RegProcessor", "processC2SWrapper"); f != nil {
+		n := 0
+		eachInstr(f, func(in ssa.Instruction) {
+			st, ok := in.(*ssa.Store)
+			if !ok {
+				return
+			}
+			if o, fld, ok := fieldOwner(st.Addr); !ok || o != "proto.C2SWrapper" || fld != "RegistrationResponse" {
+				return
+			}
+			if cst, isC := st.Val.(*ssa.Const); isC && cst.Value == nil {
+				return
+			}
+			n++
+			var extra []string
+			always := reachGame(f, in, func(bl *ssa.BasicBlock) int {
+				iff, ok := bl.Instrs[len(bl.Instrs)-1].(*ssa.If)
+				if !ok {
+					return gameAny
+				}
+				cnd, _ := normCond(iff.Cond)
+				if strings.Contains(cnd, "nil") {
+					return gameAny
+				}
+				if hit, _ := reachAt(f, bl, isInstr(in), nil, nil); !hit {
+					return gameAny
+				}
+				// a test whose other side only leads to error returns refuses the request; it does not drop the field
+				for _, sc := range bl.Succs {
+					if hit, _ := reachAt(f, sc, isInstr(in), nil, nil); hit {
+						continue
+					}
+					okRet, _ := reachAt(f, sc, func(x ssa.Instruction) bool {
+						ret, ok := x.(*ssa.Return)
+						if !ok || len(ret.Results) == 0 {
+							return ok
+						}
+						// a return that hands back a message (first result not the constant nil) is not a refusal
+						cst, isC := returnedValue(ret, 0, nil).(*ssa.Const)
+						return !(isC && cst.Value == nil)
+					}, nil, nil)
+					if !okRet {
+						return gameAny
+					}
+				}
+				extra = append(extra, cnd)
+				return gameAll
+			})
+			r.Check(always, "C12.11", "processC2SWrapper: RegistrationResponse is attached whatever the authentication mode", in.Pos(), fnName(f), "reached whatever any condition other than nil tests says",
+				"whether the forwarded message carries the response in its RegistrationResponse field depends on "+firstN(strings.Join(uniq(sortedCopy(extra)), ", "), 80)+": in that configuration the stations, which read that field, never see the phantom, port and parameters the client was told")
+		})
+		if n == 0 {
+			r.Unk("C12.11", "processC2SWrapper: store of RegistrationResponse", f.Pos(), fnName(f), "not found")
+		}
+	}
+
 	// ---- C12.5 station applies response
 	r.Rule("C12.5", "station applies the response's port and the address of the registration's own family", 3)
 	if f := c.fn("C12.5", "pkg/station/lib", "RegistrationManager", "NewRegistrationC2SWrapper"); f != nil {
